@@ -74,6 +74,34 @@ CHECKS = {
   "note": "Trusted: deep snapshots taken by the harness at return time; random walks, not exhaustive.",
   "technique": "TLC-simulated histories of Session.tla replayed into one engine instance + trace validation by TLC (SessionTrace)",
  },
+ "C13": {
+  "text": "Fault enumeration bound to ExecTrace.tla: a runtime panic injected at every storage callback index k reached by the fault-free run, on whichever goroutine evaluates it, for plan shapes covering every operator (Gen_Fault.tla), in child processes; TLC validates PanicSurfaces / ExecReturns / no ProcessDead on the recorded life-cycle events. Crashes on extreme parameters / degenerate data found by the other checks' replays are attributed here as ProcessDead.",
+  "design_ref": "DESIGN.md §6 C13",
+  "note": "Trusted: the child-process supervisor (a dead child identifies its scenario), the instrumented storage.",
+  "technique": "fault enumeration (panic at k-th storage callback) in child processes + trace validation by TLC (ExecTrace)",
+  "category": "fault_enumeration",
+ },
+ "C14": {
+  "text": "Fault enumeration bound to ExecTrace.tla: cancellation inside the k-th storage callback for every k, a callback that blocks until cancelled, Query.Cancel() from another goroutine at seeded instants, against a context-honouring storage, for plan shapes covering every operator incl. distributed; TLC validates ExecReturns (5 s), CancelFinal (context error or the complete fault-free result) and NoLeak (goroutine census after Close).",
+  "design_ref": "DESIGN.md §6 C14",
+  "note": "Trusted: goroutine census via runtime.NumGoroutine with 3 s grace; interleavings are those the scheduler produces under the injected faults (not exhaustive).",
+  "technique": "fault enumeration (cancel / block at k-th storage callback, Cancel() races) + trace validation by TLC (ExecTrace)",
+  "category": "fault_enumeration",
+ },
+ "C15": {
+  "text": "Fault enumeration bound to ExecTrace.tla: a storage error at every failing-capable callback index k (Querier(), SeriesSet.Err after the k-th Next, iterator Seek/Next with Err) for plan shapes covering every operator incl. distributed; TLC validates ErrorSurfaces (errors.Is(result.Err, injected)).",
+  "design_ref": "DESIGN.md §6 C15",
+  "note": "Trusted: the instrumented storage; single faults (pairs of faults on different shards are in the thorough tier's backlog).",
+  "technique": "fault enumeration (error at k-th storage interaction) + trace validation by TLC (ExecTrace)",
+  "category": "fault_enumeration",
+ },
+ "C17": {
+  "text": "The storage logs querier open/close in real order around create / Exec start / Exec return; for every outcome (normal, error, panic, cancel, block at every k) TLC validates QuerierBeforeExec, QuerierAfterReturn, QuerierClosedOnce and DataUnmodified (the storage hands out the same label slices on every call and compares deep snapshots) of ExecTrace.tla.",
+  "design_ref": "DESIGN.md §6 C17",
+  "note": "Trusted: the storage's own event log (global sequence numbers).",
+  "technique": "fault enumeration over all outcomes + trace validation by TLC of querier life-cycle events (ExecTrace)",
+  "category": "fault_enumeration",
+ },
  "C02": {
   "text": "Exhaustive small-scope enumeration by TLC of sample layouts x lookback x per-query lookback x offset x @ x step x window (SelectionLaw model-checked on every enumerated scenario); boundary scenarios replayed through the real engine and Prometheus; each result validated by TLC against PromQLRef's denotation and the reference result.",
   "design_ref": "DESIGN.md §6 C02",
